@@ -49,7 +49,7 @@ def run(chk: Check) -> None:
     own = ownership(repo)
     k = 0
     for prop, rule, construct, ok, loc, msg, facts in own.obs:
-        if rule in ("R05.3", "R03.5"):
+        if rule in ("R05.3", "R03.5") or (rule == "R03.3" and "leave-previous-owner" in construct):
             chk.ob("R12.6", construct, ok, loc, msg, facts)
             k += 1
     chk.floor("R12.6", "index-maintenance obligations", k, 6)
